@@ -53,23 +53,24 @@ def build_runner(flavour, quiet=True):
     return runner_path(flavour)
 
 
-def run_native(scenario, flavour=None, timeout=120, keep=False):
-    """Run a concrete scenario dict natively.  Returns (observations list, final tree or None)."""
-    flavour = flavour or scenario.get("flavour", "sync")
-    exe = build_runner(flavour)
-    with tempfile.NamedTemporaryFile("w", suffix=".json", delete=False, dir=BUILD) as fh:
-        json.dump(scenario, fh)
-        path = fh.name
-    try:
-        p = subprocess.run([exe, path], stdout=subprocess.PIPE, stderr=subprocess.PIPE, timeout=timeout,
-                           cwd=tempfile.gettempdir())
-    except subprocess.TimeoutExpired:
-        return [{"outcome": "hang"}], None
-    finally:
-        if not keep:
-            os.unlink(path)
+def shim_path():
+    so = os.path.join(BUILD, "shim.so")
+    src = os.path.join(VERIF, "replay", "shim.c")
+    if not os.path.exists(so) or os.path.getmtime(so) < os.path.getmtime(src):
+        tmp = so + ".tmp%d" % os.getpid()
+        p = subprocess.run(["gcc", "-shared", "-fPIC", "-O1", "-o", tmp, src, "-ldl"], stdout=subprocess.PIPE, stderr=subprocess.PIPE)
+        if p.returncode != 0:
+            raise RuntimeError("shim build failed: " + p.stderr.decode()[-500:])
+        os.replace(tmp, so)
+    return so
+
+
+ERRNO_OF = {"Other": 5, "StorageFull": 28, "PermissionDenied": 13, "Uncategorized": 24, "NotFound": 2, "AlreadyExists": 17}
+
+
+def _parse_obs(stdout):
     obs, final = [], None
-    for line in p.stdout.decode("utf-8", "replace").splitlines():
+    for line in stdout.decode("utf-8", "replace").splitlines():
         line = line.strip()
         if not line.startswith("{"):
             continue
@@ -81,9 +82,101 @@ def run_native(scenario, flavour=None, timeout=120, keep=False):
             final = o["final"]["tree"]
         else:
             obs.append(o)
-    if p.returncode not in (0, 3) and not final:
-        obs.append({"outcome": "abort", "returncode": p.returncode, "stderr": p.stderr.decode("utf-8", "replace")[-500:]})
     return obs, final
+
+
+def _exec(exe, scenario, root, extra_args=(), env=None, timeout=120):
+    with tempfile.NamedTemporaryFile("w", suffix=".json", delete=False, dir=BUILD) as fh:
+        json.dump(scenario, fh)
+        path = fh.name
+    try:
+        p = subprocess.run([exe, path, "--root", root] + list(extra_args), stdout=subprocess.PIPE, stderr=subprocess.PIPE,
+                           timeout=timeout, cwd=tempfile.gettempdir(), env=env)
+        return p.returncode, p.stdout, p.stderr
+    except subprocess.TimeoutExpired:
+        return -9, b'{"outcome": "hang"}\n', b""
+    finally:
+        os.unlink(path)
+
+
+def _subst_refs(steps, obs):
+    """Steps of a later process cannot refer to in-memory results of an earlier one: replace
+    {"ref": k} by the integrity string the earlier process printed."""
+    def fix(v):
+        if isinstance(v, dict):
+            if set(v) == {"ref"} and isinstance(v["ref"], int):
+                k = v["ref"]
+                if k < len(obs):
+                    val = obs[k].get("value", {})
+                    if "sri" in val:
+                        return {"str": val["sri"]}
+                    if val.get("meta"):
+                        return {"str": val["meta"]["integrity"]}
+                return v
+            return {a: fix(b) for a, b in v.items()}
+        if isinstance(v, list):
+            return [fix(x) for x in v]
+        return v
+    return [fix(s) for s in steps]
+
+
+def run_native(scenario, flavour=None, timeout=120, keep=False):
+    """Run a concrete scenario natively.  Returns (observations list, final tree or None).
+    scenario["shim"] (optional) replays a crash point or an injected fault of the model:
+      {"mode": "crash", "step": k, "effects": N, "torn": t or null}
+      {"mode": "fault", "step": k, "class": "write", "occurrence": n, "errno": "StorageFull", "short": s or null, "suffix": "..."}"""
+    flavour = flavour or scenario.get("flavour", "sync")
+    exe = build_runner(flavour)
+    root = tempfile.mkdtemp(prefix="cacache-replay-")
+    root = os.path.realpath(root)
+    try:
+        shim = scenario.get("shim")
+        steps = [dict(s) for s in scenario["steps"]]
+        if not shim:
+            rc, out, err = _exec(exe, {"steps": steps}, root, timeout=timeout)
+            obs, final = _parse_obs(out)
+            if rc not in (0, 3) and final is None:
+                obs.append({"outcome": "abort", "returncode": rc, "stderr": err.decode("utf-8", "replace")[-400:]})
+            return obs, final
+        k = shim["step"]
+        steps[k]["arm"] = True
+        env = dict(os.environ)
+        env["LD_PRELOAD"] = shim_path()
+        env["CACACHE_SHIM_ROOT"] = root
+        if shim["mode"] == "crash":
+            env["CACACHE_SHIM_SPEC"] = "crash %d %d" % (shim["effects"], -1 if shim.get("torn") is None else shim["torn"])
+            rc, out, err = _exec(exe, {"steps": steps}, root, extra_args=["--upto", str(k)], env=env, timeout=timeout)
+            obs, final = _parse_obs(out)
+            crashed = rc == 137
+            while len(obs) < k:
+                obs.append({"outcome": "missing"})
+            if crashed:
+                obs = obs[:k] + [{"step": k, "outcome": "crash"}]
+            # the restarted process runs the remaining steps on the same directory
+            rest = _subst_refs(steps, obs)
+            for s_ in rest:
+                s_.pop("arm", None)
+            if k + 1 < len(steps):
+                rc2, out2, err2 = _exec(exe, {"steps": rest}, root, extra_args=["--from", str(k + 1)], timeout=timeout)
+                obs2, final = _parse_obs(out2)
+                obs = obs[:k + 1] + obs2
+            else:
+                rc2, out2, err2 = _exec(exe, {"steps": []}, root, timeout=timeout)
+                _, final = _parse_obs(out2)
+            return obs, final
+        # fault
+        short = shim.get("short")
+        env["CACACHE_SHIM_SPEC"] = "fault %s %d %d %d %s" % (shim["class"], shim.get("occurrence", 0), ERRNO_OF.get(shim["errno"], 5),
+                                                            -1 if short is None else short, shim.get("suffix") or "*")
+        rc, out, err = _exec(exe, {"steps": steps}, root, env=env, timeout=timeout)
+        obs, final = _parse_obs(out)
+        if rc not in (0, 3) and final is None:
+            obs.append({"outcome": "abort", "returncode": rc, "stderr": err.decode("utf-8", "replace")[-400:]})
+        return obs, final
+    finally:
+        if not keep:
+            import shutil
+            shutil.rmtree(root, ignore_errors=True)
 
 
 # ---------------------------------------------------------------------------
